@@ -45,7 +45,19 @@ fn uncovered_on(l: &[GTx], d: NaiveDate, tk: &str) -> bool {
 fn gen_hostile(r: &mut Rng, base: &Ledger) -> Ledger {
     let mut l = base.clone();
     if l.is_empty() { return l; }
-    match r.below(5) {
+    match r.below(6) {
+        4 => {
+            // a day with a purchase and a larger sale than purchase + holding, repurchase within 30 days
+            let tk = l[0].ticker.clone();
+            let d0 = l.iter().map(|t| t.date).max().unwrap_or(l[0].date) + Duration::days(40);
+            let p = Decimal::from(*r.pick(&[0i64, 10, 50]));
+            let lq = Decimal::from(*r.pick(&[10i64, 30, 100]));
+            let x = Decimal::from(r.range(1, 30)).min(lq);
+            if p > Decimal::ZERO { l.push(GTx::new(d0, &tk, Kind::Buy, p, Decimal::ONE, Decimal::ZERO)); }
+            l.push(GTx::new(d0 + Duration::days(35), &tk, Kind::Buy, lq, Decimal::TWO, Decimal::ZERO));
+            l.push(GTx::new(d0 + Duration::days(35), &tk, Kind::Sell, lq + p + x, Decimal::from(3), Decimal::ZERO));
+            l.push(GTx::new(d0 + Duration::days(35 + r.range(1, 30)), &tk, Kind::Buy, x + Decimal::from(r.range(0, 20)), Decimal::from(4), Decimal::ZERO));
+        }
         0 => {
             // truncated export: drop the earliest purchases
             l.sort_by_key(|t| t.date);
@@ -90,7 +102,7 @@ pub fn run(ctx: &mut Ctx) {
     cfg.oversell_pct = 8;
     let n = ctx.n(500, 30_000);
     let base_cases = matcher_cases(prop, ctx, &cfg, n);
-    ctx.ev.rule = "corpus + fixtures + generated ledgers without cost events, each also in a hostile variant (earliest purchases dropped; a sale row duplicated; sale + companion sale + repurchase within 30 days; sale straddling a split/unsplit): the real calculate() accepts iff an independent cumulative-position check over the raw lines says every (date, security) is covered; a refusal names an uncovered security and the earliest uncovered date; the Lean model agrees on accept/reject, error kind, security and date. A sample of refused and accepted ledgers is also run through the real CLI (exit status, stdout, --output file). Non-trivial = uncovered ledgers, and covered ledgers containing a 30-day match; distinct by ledger text.".into();
+    ctx.ev.rule = "corpus + fixtures + generated ledgers without cost events, each also in a hostile variant (earliest purchases dropped; a sale row duplicated; sale + companion sale + repurchase within 30 days; sale straddling a split/unsplit; same-day purchase + sale larger than purchase + holding + repurchase within 30 days): the real calculate() accepts iff an independent cumulative-position check over the raw lines says every (date, security) is covered; a refusal names an uncovered security and the earliest uncovered date; the Lean model agrees on accept/reject, error kind, security and date. A sample of refused and accepted ledgers is also run through the real CLI (exit status, stdout, --output file). Non-trivial = uncovered ledgers, and covered ledgers containing a 30-day match; distinct by ledger text.".into();
     let ex = run_impl::wide_exemptions();
     let mut r = Rng::new(ctx.seed ^ 0xC05);
     let mut cli_budget: i64 = if ctx.tier == Tier::Quick { 24 } else { 300 };
